@@ -1,6 +1,21 @@
 CFG = {
-    "modules": ["Parsley.Props.C15"],
-    "theorems": ["Parsley.C15.loc_faithful_tokens", "Parsley.C15.wsEOLLoop_spec", "Parsley.C15.litLoop_bound"],
+    "modules": ["Parsley.Props.C15", "Parsley.Props.C15Reparse"],
+    "theorems": ["Parsley.C15.loc_faithful_tokens", "Parsley.C15.wsEOLLoop_spec", "Parsley.C15.litLoop_bound",
+                 # the RE-PARSE clause (Props/C15Reparse.lean, Lemmas/Trunc.lean, Lemmas/TruncObj.lean)
+                 "Parsley.C15.reparses_of", "Parsley.C15.reparse_tokens", "Parsley.C15.wsNoEOL_reparses",
+                 "Parsley.C15.streamContentP_reparses", "Parsley.C15.streamContentP_start_in_span",
+                 "Parsley.C15.tagP_reparses", "Parsley.C15.parseObj_reparses",
+                 "Parsley.Trunc.wsNoEOL_truncC", "Parsley.Trunc.wsEOL_trunc", "Parsley.Trunc.integerP_trunc",
+                 "Parsley.Trunc.realP_trunc", "Parsley.Trunc.rawLitString_trunc", "Parsley.Trunc.streamContentP_trunc",
+                 "Parsley.Trunc.numberOrRef_trunc", "Parsley.Trunc.arrayLoop_trunc", "Parsley.Trunc.dictLoop_trunc",
+                 "Parsley.Trunc.parseObjB_trunc", "Parsley.C15.parseObjB_restart"],
+    "partial": {"(reparse)": "the re-parse clause is PROVED, for every buffer and cursor, for every token parser of pdf_prim.rs "
+                "(WhitespaceNoEOL both flags incl. the '\\r' give-back, WhitespaceEOL both flags, Comment, Boolean, Null, IntegerP, RealP, "
+                "HexString, RawLiteralString, NameP, OperatorP), for the tag matcher, for StreamContentP modulo its absolute `start` field "
+                "(content and size equal, start re-based to the span: streamContentP_reparses + streamContentP_start_in_span) and for the "
+                "object parser parse_pdf_obj at every depth bound (scalars, the number/reference look-ahead, arrays, dictionaries: "
+                "parseObj_reparses; the span starts after the leading whitespace). Not covered by a theorem (oracle only): the binary "
+                "integer / byte-vector parsers of prim_binary.rs (fixed-width, no look-ahead) and the four combinators; scanners are exempt."},
     "n": {"quick": 4000, "thorough": 200000},
     "exhaustive": {"quick": True, "thorough": True},
     "rule": "exhaustive buffers of length <= 2 (quick) / <= 3 (thorough) over a 30-symbol alphabet (whitespace, delimiters, digits, sign, "
@@ -18,6 +33,8 @@ LEVEL = {
     "design_ref": "DESIGN.md 3.C15",
     "technique": "Lean 4 theorems per token parser over an executable model + exhaustive small-buffer differential correspondence",
     "text": "Machine-checked proof, for every buffer and cursor, that each modelled token parser on success reports start = cursor-before, "
-            "cursor-after = end <= size, and on failure leaves the cursor unchanged; the re-parse clause is proved for the listed parsers and "
-            "checked by the oracle on the real code for all of them. Model tied to the Rust parsers by an exhaustive small-buffer run.",
+            "cursor-after = end <= size, and on failure leaves the cursor unchanged; and that parsing the reported span alone (bytes before it dropped: prefix "
+            "independence; bytes after it cut: suffix truncation, the look-ahead sees the same at end-of-buffer) yields an equal value and consumes the span, "
+            "for every token parser, the tag matcher, StreamContentP (modulo its absolute start offset) and the object parser parse_pdf_obj at every depth; "
+            "the re-parse clause is also checked by the oracle on the real code for all parsers. Model tied to the Rust parsers by an exhaustive small-buffer run.",
 }
